@@ -399,7 +399,61 @@ def rule_timeout_poll(cx, tier):
                 r.undecided.append(f"poll result of {fn.qual}:{p.line} is not branched on directly")
         r.sample({"fn": fn.qual, "dispatch_line": d.line, "poll_lines": [p.line for p in polls],
                   "loop_blocks": len(loop), "guard_block": guard_bb})
+    # (d) the deadline object that the poll is called on is armed exactly from the configured limit: the
+    # Option<ExecutionTimeout> has a single definition, derived from `settings.execution_limit`
+    du = cx.du(fn)
+    for p in polls:
+        r.instances += 1
+        r.nontrivial += 1
+        holder = _timeout_holder(cx, fn, du, p)
+        if holder is None:
+            r.undecided.append(f"{fn.qual}:{p.line} could not identify the Option<ExecutionTimeout> the poll reads")
+            continue
+        defs = du.defs.get(holder, [])
+        bad = None
+        if len(defs) != 1:
+            bad = f"the deadline holder `{fn.local_name(holder) or '_%d' % holder}` is assigned in {len(defs)} places"
+        else:
+            d0 = defs[0]
+            ok = False
+            if d0[2] == "call" and d0[3].is_("Option::map", "Option::and_then", "Option::as_ref", "Option::copied"):
+                src = d0[3].args[0]
+                l = op_base(src)
+                fields = place_fields(op_place(src)) if op_place(src) else []
+                rr = du.root(l, through_calls=DEREF) if l is not None else None
+                if "execution_limit" in fields or (rr and rr[0] == "field" and "execution_limit" in rr[2]):
+                    ok = True
+            if not ok:
+                bad = "the deadline holder is not derived from settings.execution_limit by Option::map"
+        if bad:
+            r.add(Finding("R-TIMEOUT-POLL", fn.qual, "arming", bad + ": some entries of the interpreter loop may run "
+                          "without a deadline although a limit is configured", fn.file, p.line))
     return r
+
+
+def _timeout_holder(cx, fn, du, poll):
+    """the Option<ExecutionTimeout> local whose `as_mut()`/pattern yields the receiver of check_for_timeout"""
+    l = op_base(poll.args[0]) if poll.args else None
+    for _ in range(10):
+        if l is None:
+            return None
+        ts = fn.crate.tstr(fn.local_ty(l))
+        if ts.startswith("std::option::Option<") and "ExecutionTimeout" in ts and "&" not in ts:
+            return l
+        d = du.single_def(l)
+        if d is None:
+            return None
+        if d[2] == "call":
+            l = op_base(d[3].args[0]) if d[3].args else None
+            continue
+        rv = d[3]
+        if rv[0] in ("use", "cast"):
+            l = op_base(rv[1] if rv[0] == "use" else rv[2])
+        elif rv[0] in ("ref", "rawptr"):
+            l = rv[2][0]
+        else:
+            return None
+    return None
 
 
 def rule_timeout_nocatch(cx, tier):
@@ -415,6 +469,45 @@ def rule_timeout_nocatch(cx, tier):
     r.floor("pop_call_stack_on_error call sites", len(sites), 2)
     callee = cx.need_fn(VM + "pop_call_stack_on_error")
     callee_guards = _tests_timeout_kind(cx, callee)
+    # inside the unwinder: the exit that resumes at a catch handler (the Ok return) must be guarded by a bool
+    # parameter (checked per call site below) or by a test of the error kind against Timeout
+    ccfg = cx.cfg(callee)
+    cdu = cx.du(callee)
+    ok_blocks = set()
+    for b in callee.blocks:
+        if b.cleanup:
+            continue
+        for st in b.stmts:
+            if st[0] == "a" and st[1][0] == 0 and not st[1][1] and rv_variant(cdu, st[2]) == "Ok":
+                ok_blocks.add(b.idx)
+    require(ok_blocks, "R-TIMEOUT-NOCATCH: pop_call_stack_on_error has no Ok(..) return (catch resumption) any more")
+    guard_switches = set()
+    td = _timeout_discr(cx)
+    for b in callee.blocks:
+        if b.cleanup or b.term[0] != "switch":
+            continue
+        l = op_base(b.term[1])
+        if l is None:
+            continue
+        root = cdu.root(l)
+        if root[0] == "arg" and callee.crate.tstr(callee.local_ty(root[1])) == "bool":
+            guard_switches.add(b.idx)
+        elif root[0] == "rv" and root[1][0] == "discr":
+            pl = root[1][1]
+            ty = pl[2] if len(pl) > 2 else callee.local_ty(pl[0])
+            if callee.crate.tdef(ty) == "koto_runtime::error::ErrorKind" and any(v == td for v, _ in b.term[2]):
+                guard_switches.add(b.idx)
+    r.instances += 1
+    r.nontrivial += 1
+    if 0 not in guard_switches:
+        p = ccfg.find_path(0, lambda b: b in ok_blocks, guard_switches, include_src_succs=False)
+        if p is not None:
+            r.add(Finding("R-TIMEOUT-NOCATCH", callee.qual, "unguarded-catch", "the unwinder can resume at a catch "
+                          "handler on a path that neither tests an allow-catch parameter nor excludes "
+                          "ErrorKind::Timeout: a timeout can be swallowed by a `try` in a calling frame",
+                          callee.file, line_of(callee, p[-1]),
+                          [f"bb{b} {callee.file}:{line_of(callee, b)}" for b in p]))
+    r.sample({"fn": callee.qual, "catch_resumption_blocks": sorted(ok_blocks), "guard_switches": sorted(guard_switches)})
     r.analysed = {"call_sites": len(sites), "callee_tests_timeout_kind": callee_guards}
     for fn, c in sites:
         r.instances += 1
@@ -442,9 +535,14 @@ def rule_timeout_nocatch(cx, tier):
                           [f"call at {fn.file}:{c.line}", "nested execute_instructions() arms its own deadline and "
                            "returns Timeout as an ordinary Err to the native caller"]))
             continue
-        # computed flag: accept if it is data-dependent on a test of the error's kind against Timeout
-        if _flag_depends_on_timeout_test(cx, fn, a) or callee_guards:
+        # computed flag: it must be false whenever the error kind is Timeout
+        verdict = "ok" if callee_guards else _flag_vs_timeout(cx, fn, a)
+        if verdict == "ok":
             r.sample({"fn": fn.qual, "line": c.line, "allow_catch": "computed from error kind", "verdict": "ok"})
+        elif verdict == "wrong":
+            r.add(Finding("R-TIMEOUT-NOCATCH", fn.qual, "allow_catch=computed", "the computed allow_catch flag is not "
+                          "false on the ErrorKind::Timeout edge: a timeout can be offered to a catch handler",
+                          fn.file, c.line))
         else:
             r.undecided.append(f"{fn.qual}:{c.line} allow_catch is computed; could not relate it to ErrorKind::Timeout")
     return r
@@ -477,9 +575,57 @@ def _tests_timeout_kind(cx, fn):
     return False
 
 
-def _flag_depends_on_timeout_test(cx, fn, operand):
-    # conservative: the function tests the error kind against Timeout somewhere before the call
-    return _tests_timeout_kind(cx, fn)
+def _flag_vs_timeout(cx, fn, operand):
+    """'ok' if the bool operand is provably false on the edge where ErrorKind == Timeout, 'wrong' if it is provably
+    true there, 'unknown' otherwise.  Recognises `!matches!(e.error, Timeout(_))`, `match`/`if let` forms."""
+    du = cx.du(fn)
+    cfg = cx.cfg(fn)
+    td = _timeout_discr(cx)
+    # the switch on the ErrorKind discriminant with a Timeout target
+    tblocks = []
+    for b in fn.blocks:
+        if b.cleanup or b.term[0] != "switch":
+            continue
+        l = op_base(b.term[1])
+        d = du.single_def(l) if l is not None else None
+        if d and d[2] == "assign" and d[3][0] == "discr":
+            pl = d[3][1]
+            ty = pl[2] if len(pl) > 2 else fn.local_ty(pl[0])
+            if fn.crate.tdef(ty) == "koto_runtime::error::ErrorKind":
+                for v, tb in b.term[2]:
+                    if v == td:
+                        tblocks.append(tb)
+    if not tblocks:
+        return "unknown"
+    l = op_local(operand)
+    neg = False
+    for _ in range(8):
+        if l is None:
+            return "unknown"
+        ds = du.full_defs(l)
+        if len(ds) == 1 and ds[0][2] == "assign":
+            rv = ds[0][3]
+            if rv[0] == "un" and rv[1] == "Not":
+                neg = not neg
+                l = op_local(rv[2])
+                continue
+            if rv[0] == "use" and rv[1][0] in ("c", "m"):
+                l = op_local(rv[1])
+                continue
+            return "unknown"
+        # multi-def: constants assigned in the branches
+        seen_timeout = False
+        for d in ds:
+            if d[2] != "assign" or d[3][0] != "use" or op_int(d[3][1]) is None:
+                return "unknown"
+            v = bool(op_int(d[3][1])) != neg
+            on_timeout = any(d[0] == tb or cfg.dominates(tb, d[0]) for tb in tblocks)
+            if on_timeout:
+                seen_timeout = True
+                if v:
+                    return "wrong"
+        return "ok" if seen_timeout else "unknown"
+    return "unknown"
 
 
 # ---------------------------------------------------------------------------------------------
@@ -487,40 +633,70 @@ def _flag_depends_on_timeout_test(cx, fn, operand):
 
 def rule_catch_restore(cx, tier):
     r = RuleResult("R-CATCH-RESTORE", "resuming at a catch handler restores the sequence/string builder stacks "
-                                      "to their depth at try entry")
+                                      "to their depth at try entry: every path from the catch outcome of the unwinder "
+                                      "to set_ip() shrinks both stacks, and TryStart records both depths")
     fn = cx.need_fn(VM + "execute_instructions")
-    popfn = cx.need_fn(VM + "pop_call_stack_on_error")
-    SHRINK = ("Vec::truncate", "Vec::drain", "Vec::split_off", "Vec::pop", "Vec::clear")
-    found = {"sequence_builders": False, "string_builders": False}
-    scanned = 0
-    # accept the restoration anywhere in the catch path: execute_instructions (after the Ok outcome of
-    # pop_call_stack_on_error) or pop_call_stack_on_error itself, or a helper they call
-    cand = [fn, popfn]
-    for f in list(cand):
-        for c in f.calls():
-            t = cx.F.fns.get(c.resolved)
-            if t is not None and t.qual.startswith(VM) and t not in cand and t.qual not in (VM + "execute_instruction",):
-                if f is popfn or f is fn:
-                    cand.append(t)
-    for f in cand:
-        if f.qual in (VM + "execute_instruction", VM + "pop_frame"):
-            continue
-        scanned += 1
-        for c in f.calls():
-            if c.is_(*SHRINK):
-                for fld in found:
-                    if _receiver_is_self_field(cx, f, c, fld):
-                        found[fld] = True
-    r.instances = 2
-    r.nontrivial = 2
-    r.analysed = {"functions_scanned": scanned}
-    for fld, ok in found.items():
-        r.sample({"field": fld, "restored_on_catch_path": ok})
-        if not ok:
-            r.add(Finding("R-CATCH-RESTORE", fn.qual, fld,
-                          f"no shrink of self.{fld} on the path that resumes at a catch handler: an error thrown while a "
-                          f"{'list/tuple' if fld == 'sequence_builders' else 'string'} is under construction and caught "
-                          f"leaves its builder behind", fn.file, fn.line))
+    cfg = cx.cfg(fn)
+    SHRINK = ("Vec::truncate", "Vec::drain", "Vec::split_off", "Vec::clear")
+    unw = [c for c in fn.calls() if c.short == VM + "pop_call_stack_on_error"]
+    setips = {c.bb for c in fn.calls() if c.short == VM + "set_ip"}
+    require(unw, "R-CATCH-RESTORE: no call of pop_call_stack_on_error in execute_instructions")
+    require(setips, "R-CATCH-RESTORE: no call of set_ip in execute_instructions (catch resumption not found)")
+    shr = {"sequence_builders": set(), "string_builders": set()}
+    for c in fn.calls():
+        if c.is_(*SHRINK):
+            for fld in shr:
+                if _receiver_is_self_field(cx, fn, c, fld):
+                    shr[fld].add(c.bb)
+    r.analysed = {"unwinder_calls": len(unw), "set_ip_sites": len(setips),
+                  "shrink_sites": {k: len(v) for k, v in shr.items()}}
+    for c in unw:
+        # the catch outcome: the Ok edge of the result
+        ok_edges = set()
+        dest = c.dest[0]
+        for b in fn.blocks:
+            if b.cleanup:
+                continue
+            for st in b.stmts:
+                if st[0] == "a" and st[2][0] == "discr" and st[2][1][0] == dest and not st[2][1][1] and b.term[0] == "switch":
+                    for v, tb in b.term[2]:
+                        if v == 0:
+                            ok_edges.add(tb)
+        reach_setip = [e for e in ok_edges if cfg.reachable({e}) & setips]
+        if not reach_setip:
+            continue  # e.g. the timeout site maps the result away
+        for fld in shr:
+            r.instances += 1
+            r.nontrivial += 1
+            bad = None
+            for e in reach_setip:
+                if e in shr[fld]:
+                    continue
+                p = cfg.find_path(e, lambda b: b in setips, shr[fld], include_src_succs=False)
+                if p is not None:
+                    bad = p
+            r.sample({"field": fld, "unwinder_call_line": c.line, "restored_before_set_ip": bad is None})
+            if bad is not None:
+                r.add(Finding("R-CATCH-RESTORE", fn.qual, fld,
+                              f"execution can resume at a catch handler without shrinking self.{fld}: an error thrown "
+                              f"while a {'list/tuple' if fld == 'sequence_builders' else 'string'} is under construction "
+                              f"and caught leaves its builder behind", fn.file, c.line,
+                              [f"bb{b} {fn.file}:{line_of(fn, b)}" for b in bad]))
+    require(r.instances >= 2, "R-CATCH-RESTORE: catch resumption path (Ok outcome -> set_ip) not found")
+    # TryStart records both depths: the function that pushes onto catch_stack reads both lengths
+    ex = cx.need_fn(VM + "execute_instruction")
+    lens = set()
+    for c in ex.calls():
+        if c.is_("Vec::len"):
+            for fld in shr:
+                if _receiver_is_self_field(cx, ex, c, fld):
+                    lens.add(fld)
+    for fld in shr:
+        r.instances += 1
+        r.nontrivial += 1
+        if fld not in lens:
+            r.add(Finding("R-CATCH-RESTORE", ex.qual, "record:" + fld, f"TryStart does not record the depth of "
+                          f"self.{fld}, so a catch handler has nothing to restore it to", ex.file, ex.line))
     return r
 
 
